@@ -16,7 +16,7 @@ from mc import histories as H
 from mc.core import Partial, V
 from mc.outcome import call
 from mc.refmodel import Ref1D, RefND, eq_exact, frac
-from mc.snapshot import fl, snap
+from mc.snapshot import diff, fl, snap
 
 ID = "C04"
 LEVEL = "model_checking"
@@ -477,6 +477,87 @@ def derived_eval(case):
     return out, "ok"
 
 
+# values given in narrow float types (the grid index is a quotient: it must be taken of the number, not in the type), and
+# adaptivity switched on afterwards
+NARROW_VALUES = {"float32": [100000.5, 0.1, -2500.25, 16777216.0, 3.4e5], "float16": [0.5, 2048.0, -100.25, 0.0999755859375]}
+
+
+def eval_narrow_value(case):
+    from physt import h1, h2
+
+    vt, width, dim, path = case["vtype"], case["width"], case["dim"], case["path"]
+    dt = np.dtype(vt)
+    vals = [dt.type(NARROW_VALUES[vt][case["k"]])] * case["n"]  # one value (n times): one bin, whatever the width
+    exact = [float(v) for v in vals]
+    out = []
+    sig = f"narrow_value|{vt}|{path}|{dim}D"
+
+    def build():
+        if dim == 1:
+            h = h1(None, "fixed_width", bin_width=width, adaptive=True)
+            if path == "fill":
+                for v in vals:
+                    h.fill(v)
+            elif path == "fill_n":
+                h.fill_n(np.array(vals, dtype=dt))
+            else:
+                h = h1(np.array(vals, dtype=dt), "fixed_width", bin_width=width, adaptive=True)
+            return h
+        h = h2(None, None, "fixed_width", bin_width=[width, 1.0], adaptive=True)
+        rows = np.array([[v, dt.type(1.0)] for v in vals], dtype=dt)
+        if path == "fill":
+            for r in rows:
+                h.fill(r)
+        elif path == "fill_n":
+            h.fill_n(rows)
+        else:
+            h = h2(rows[:, 0], rows[:, 1], "fixed_width", bin_width=[width, 1.0], adaptive=True)
+        return h
+
+    res = call(build)
+    if not res.ok:
+        return [V("must_succeed", f"{sig}|{type(res.exc).__name__}", case, "an adaptive histogram holding the values", res.describe())]
+    h = res.value
+    missed = float(h.underflow + h.overflow) if dim == 1 else float(h.missed)
+    if float(h.total) != len(vals) or missed != 0:
+        out.append(V("nothing_lost", f"{sig}|lost", case, {"total": len(vals), "missed": 0}, {"total": float(h.total), "missed": missed}))
+        return out
+    b0 = np.asarray(h.binnings[0].bins)
+    f = np.asarray(h.frequencies)
+    f0 = f if dim == 1 else f.sum(axis=1)
+    for x in exact:
+        idx = [i for i in range(len(b0)) if b0[i][0] <= x < b0[i][1]]
+        if len(idx) != 1 or f0[idx[0]] < 1:
+            out.append(V("value_in_bin", f"{sig}|value_outside_its_bin", case, x, {"bins_around": b0[max(0, (idx or [0])[0] - 1):(idx or [0])[0] + 2].tolist()}))
+            break
+    return out
+
+
+def eval_adaptive_switch(case):
+    """adaptive = True on a binning that includes its right edge: refused (as the constructor does) - or else every value stays in the bin it was counted in."""
+    from physt import h1
+
+    h = h1(np.array([0.5, 2.0]), "fixed_width", bin_width=1.0, includes_right_edge=True)
+    before = snap(h)
+    how = case["how"]
+    res = call(lambda: setattr(h, "adaptive", True) if how == "property" else h.set_adaptive(True))
+    if not res.ok:
+        if snap(h) != before:
+            return [V("refused_unchanged", f"adaptive_switch|{how}|refused_but_changed", case, "unchanged", diff(before, snap(h)))]
+        return []
+    r2 = call(h.fill, 3.5)
+    f = np.asarray(h.frequencies).tolist()
+    bins = np.asarray(h.bins).tolist()
+    ok = True
+    for v in (0.5, 2.0, 3.5):
+        idx = [i for i, (a, b) in enumerate(bins) if a <= v < b or (i == len(bins) - 1 and v == b)]
+        if len(idx) != 1 or f[idx[0]] < 1:
+            ok = False
+    if not r2.ok or not ok:
+        return [V("contents_attached", f"adaptive_switch|{how}|value_left_its_bin", case, "refused, or 2.0 still in a bin that contains it", {"bins": bins, "frequencies": f})]
+    return []
+
+
 def units(tier, seed):
     thorough = tier == "thorough"
     us = []
@@ -502,6 +583,7 @@ def units(tier, seed):
     us.append({"kind": "bfs", "config": {"dim": 3, "widths": [0.2, 2.5, 0.7], "mode": "shift0", "start": "presized", "N": 2 if thorough else 1, "K": 2, "weights": [None]}})
     for i in range(len(DERIVED)):
         us.append({"kind": "derived", "index": i, "L": 3})
+    us.append({"kind": "narrow_values"})
     return us
 
 
@@ -514,6 +596,25 @@ def run_unit(unit, ctx):
         p.outcome(sys_.sigbase())
         last = next(iter(reversed(list(seen.values()))))
         p.sample({"config": unit["config"], "a_state_history": H.listify(jf(last[3]))})
+    elif unit["kind"] == "narrow_values":
+        case = None
+        for vt in NARROW_VALUES:
+            for width in (0.001, 0.1, 1.0, 0.3):
+                for dim in (1, 2):
+                    for path in ("fill", "fill_n", "construct"):
+                        for k in range(len(NARROW_VALUES[vt])):
+                            for n in (1, 2):
+                                case = {"narrow_value": True, "vtype": vt, "width": width, "dim": dim, "path": path, "k": k, "n": n}
+                                p.ev(True)
+                                p.states += 1
+                                p.outcome("narrow_value")
+                                p.extend(eval_narrow_value(case))
+        for how in ("property", "method"):
+            case = {"adaptive_switch": True, "how": how}
+            p.ev(True)
+            p.outcome("adaptive_switch")
+            p.extend(eval_adaptive_switch(case))
+        p.sample(case)
     else:
         method = DERIVED[unit["index"]]
         w = method[1].get("bin_width", 1.0)
@@ -531,6 +632,10 @@ def run_unit(unit, ctx):
 
 
 def replay(case):
+    if case.get("narrow_value"):
+        return eval_narrow_value(case)
+    if case.get("adaptive_switch"):
+        return eval_adaptive_switch(case)
     if "method" in case:
         return derived_eval(case)[0]
     sys_ = AdaptiveSystem(case["config"])
